@@ -424,7 +424,12 @@ func (r *vfQrDmRun) exec(op vfh.Op) {
 // flight: the held ones are let go so that they run into the refusal.
 func (r *vfQrDmRun) closeLn(l int, opName string) {
 	done := make(chan struct{})
-	go func() { r.lns[l].Close(); close(done) }()
+	go func() {
+		if p := vfQrGuard(func() { r.lns[l].Close() }); p != "" {
+			r.v("panic:close", "listener.Close panicked: "+p, "returns", "panic")
+		}
+		close(done)
+	}()
 	r.open[l] = false
 	synctest.Wait()
 	select {
@@ -575,10 +580,14 @@ func vfQrDmRunWalk(t *testing.T, conf vfQrDmConf, cert tls.Certificate, w vfh.Wa
 			crashed = err.Error()
 			return
 		}
-		defer r.finish()
+		defer func() { vfQrGuard(r.finish) }()
 		for i, step := range w.Steps {
 			nv := len(r.viol)
-			r.exec(step.Op)
+			if p := vfQrGuard(func() { r.exec(step.Op) }); p != "" {
+				r.v("panic:"+step.Op.Name(), "the call panicked: "+p, "returns", "panic")
+				viol, l2, executed, vstep = r.viol, r.l2, i+1, i
+				return
+			}
 			var st vfQrDmSt
 			if err := json.Unmarshal(step.State, &st); err != nil {
 				crashed = err.Error()
